@@ -5,6 +5,11 @@ import json, pathlib
 BASE_CMD = "cd /repo && /venv/bin/python -m pytest -ra -q -p no:cacheprovider --timeout=900 --continue-on-collection-errors"
 
 CHECKS = {
+ "C08": dict(
+  technique="Lean 4 proof over a hand-written executable model (index formula of the Cartesian product via uniform-chunk flatMap indexing; planned size = materialised size by induction over blocks) + differential run real expand_run_space vs compiled Lean model + subprocess cap-promptness runs",
+  text="Theorems sortCols_sorted (keys in sorted order, none lost), expandComb_length / expandComb_getElem? / expandComb_keys (product size, last-key-fastest order as an index recursion, every run carries exactly the keys), expandPosN_getElem?, posSize_ok_iff / posSize_mismatch (aligned positions, unequal lengths rejected), blockRuns_length and combineRuns_length (the arithmetic plan equals the number of runs materialised, for any number of blocks), expand_of_plan / expand_ok_le_cap (the max-runs error is raised exactly when the planned total exceeds the cap, decided before anything is materialised), expand_validation_error. The model is tied to /repo by running the real expand_run_space (dataclass door and YAML door, files in four formats with select/rename) and the Lean model on the same generated specs and comparing ordered run lists / error classes; promptness is observed on specs with up to 1.6e13 planned runs under an address-space and time limit.",
+  note="Trusted: Lean kernel; the spec generator/canonicaliser in props/c08.py; file parsing and scalar coercion are outside the model; memory/time behaviour is measured, not proved. No generated side condition (hand-written model + correspondence).",
+  design="§7 C08"),
  "C11": dict(
   technique="Lean 4 proof (mutual structural induction over AST trees of any depth) + decidable side condition on the policy table extracted from the real visitor + differential run visitor vs compiled Lean model",
   text="Theorem accepts_confines: for every visitor policy satisfying the decidable condition Policy.total, every tree of any depth that the policy accepts contains only whitelisted elements, declared names and direct whitelisted calls, in every child position. The policy table and the interpreter's AST grammar are re-extracted from /repo on every run (single-position probes of the real _SafeVisitor) and `Policy.total Generated.policy` is re-proved by kernel evaluation. The extracted table is validated against the real visitor on spine-enumerated trees to depth 3 (thorough: all of them) and the public compile() API is run on an escape-idiom corpus in every argument/keyword/operand position.",
